@@ -103,9 +103,9 @@ def run(tier: str, seed: int, replay=None) -> int:
         hists += [c13.gen_history(r1, "all", 4, 16 if tier == "quick" else 28) for _ in range(500 * n)]
         hists += [c13.gen_history(r1, "churn", 4, 16 if tier == "quick" else 28) for _ in range(300 * n)]
         it = 12 if tier == "quick" else 60
-        hists += [gen_loop_history(r2, it, q) for q in ("none", "registry", "eql") for _ in range(12 * n)]
+        hists += [gen_loop_history(r2, it, q) for q in ("none", "registry", "eql") for _ in range(12)]
         its = 30 if tier == "quick" else 200
-        loops = [gen_loop(r3, its, m) for m in ("none", "registry", "eql", "eql_domain") for _ in range(3 * n)]
+        loops = [gen_loop(r3, its, m) for m in ("none", "registry", "eql", "eql_domain") for _ in range(3 if tier == "quick" else 6)]
     if not model_ok:
         rep.note("model not available; comparing the implementation with the Spec only (search for a failing input)")
     results, codes, hd, inst = c13.decide(rep, PROP, hists, model_ok, "lifetime", ACCEPT)
